@@ -103,7 +103,7 @@ class PossibleMatch:
         self._element_weights = [RememberAdd(0.0) for _ in range(self._Nelements)]
         self._open_atoms = []
 
-        possible_substructures = mol.GetSubstructMatches(pattern)
+        possible_substructures = mol.GetSubstructMatches(pattern, uniquify=False)
         if substructure in possible_substructures:
             open_atoms = self._find_open_atoms(substructure, token)
             self._add_new_open_atoms(open_atoms)
@@ -293,7 +293,7 @@ class PossibleMatch:
             new_full = []
             pattern = Chem.MolFromSmiles(token.generate_smiles_fragment(), params.removeHs)
 
-            for substructure in match._mol.GetSubstructMatches(pattern):
+            for substructure in match._mol.GetSubstructMatches(pattern, uniquify=False):
                 open_atom_idx = id_open_atom(substructure, match, atom.new_atom)
                 if open_atom_idx is not None:
                     possible_bd = id_bond_descriptor(
@@ -385,7 +385,7 @@ def get_prob(smiles, big_mol):
     starting_token, starting_prob = get_starting_tokens(smiles, big_mol)
     for token, prob in zip(starting_token, starting_prob):
         pattern = Chem.MolFromSmiles(token.generate_smiles_fragment(), params.removeHs)
-        possible_substructures = mol.GetSubstructMatches(pattern)
+        possible_substructures = mol.GetSubstructMatches(pattern, uniquify=False)
         for substructure in possible_substructures:
             match = PossibleMatch(mol, big_mol, substructure, token, prob)
             if match.possible:
